@@ -22,7 +22,11 @@ import (
 	"verif/lib"
 )
 
-var stageName = []string{"idle", "midhead", "reqmod", "roundtrip", "resmod", "writing"}
+// Stages 0-5 are the six progress points of the statement on a fresh connection. Stages 6-9 are the same
+// "idle" and "mid request head" points reached differently: on a connection that has already served one
+// exchange (keep-alive), with the partial head having arrived in the same segment as the previous request,
+// and with a client that never completes the head it started (it only waits for the proxy to close).
+var stageName = []string{"idle", "midhead", "reqmod", "roundtrip", "resmod", "writing", "idle_keepalive", "midhead_pipelined", "midhead_stalled", "midhead_pipelined_stalled"}
 
 type scenario struct {
 	Place []int  // stage per connection
@@ -95,6 +99,19 @@ func run(sc scenario) (body func(), check func(r *vrt.Result) []finding) {
 				case 5:
 					cl.C.Peer().SetCapacity(16)
 					cl.Send(req)
+					cg.Wait()
+				case 6:
+					cl.Send(req)
+					cg.Wait()
+				case 7:
+					cl.Send(req + req[:20])
+					cg.Wait()
+					cl.Send(req[20:])
+				case 8:
+					cl.Send(req[:20])
+					cg.Wait()
+				case 9:
+					cl.Send(req + req[:20])
 					cg.Wait()
 				default:
 					cl.Send(req)
@@ -325,7 +342,10 @@ func scenarios(tier string) []scenario {
 	for n := 1; n <= maxN; n++ {
 		dims := make([]int, n)
 		for i := range dims {
-			dims[i] = 6
+			dims[i] = len(stageName)
+			if n == 3 {
+				dims[i] = 6
+			}
 		}
 		lib.Product(dims, func(idx []int) {
 			// symmetric placements (sorted) suffice for identical clients, but release order then matters: keep all orders
@@ -498,7 +518,7 @@ func main() {
 	rep.Coverage["traces_validated_against_impl"] = rep.Counter("executions")
 	rep.Coverage["bound_completed"] = minBound
 	rep.Coverage["exhaustive"] = rep.Incomplete == ""
-	rep.Coverage["bounds"] = fmt.Sprintf("%d scenarios (1..%d connections x 6 progress points (sorted placements) x all release orders, late connection racing/after); every schedule with <= %d deviations (preemptions, select cases, partner choices; one less for 3-connection scenarios)", len(scen), 3, bound)
+	rep.Coverage["bounds"] = fmt.Sprintf("%d scenarios (1..%d connections x 6 progress points + 4 variants of idle/mid-head (keep-alive, pipelined partial head, client that never completes the head; 3-connection scenarios use the 6 basic points) (sorted placements) x all release orders, late connection racing/after); every schedule with <= %d deviations (preemptions, select cases, partner choices; one less for 3-connection scenarios)", len(scen), 3, bound)
 	rep.Coverage["explanation"] = "each execution runs the real proxy.go (rewritten so that sync/chan/select/go/time are scheduler operations) over simnet; states = distinct observation logs summed over scenarios"
 	rep.Assumptions = []string{"round trips are performed by a synchronous harness RoundTripper (http.Transport is not explored)", "simnet models TCP close/EOF/deadline semantics"}
 	rep.Finish()
